@@ -41,6 +41,7 @@ class Path:
         self.writes = []     # (target_src, stmt_src, value_src)
         self.seq = []        # ('ev', event) | ('w', target_src, value_src)
         self.env = {}        # local name -> source it stands for
+        self.sym = {}        # entry mode: 'self.attr' -> source of its current value in terms of the state at method entry
 
     def clone(self):
         p = Path()
@@ -51,6 +52,7 @@ class Path:
         p.writes = list(self.writes)
         p.seq = list(self.seq)
         p.env = dict(self.env)
+        p.sym = dict(self.sym)
         return p
 
 
@@ -104,6 +106,8 @@ def _ev(p, e):
 def _wr(p, w):
     p.writes.append(w)
     p.seq.append(("w", w[0], w[2] if len(w) > 2 else None))
+    if ENTRY[0] and w[0].startswith("self.") and w[0][5:].isidentifier():
+        return      # entry mode: aliases are rendered in entry terms, a later scalar store does not change what they denote
     invalidate(p, w[0])
 
 
@@ -129,14 +133,116 @@ def _mentions(text, key):
 
 
 FINE = [False]
+ENTRY = [False]
+
+
+def affine(e):
+    """(terms: {source of an opaque integer term: coefficient}, constant) of an expression built with + - and constant *;
+    every other sub-expression is an opaque term (after simplifying inside it)."""
+    if isinstance(e, ast.Constant) and isinstance(e.value, int) and not isinstance(e.value, bool):
+        return {}, e.value
+    if isinstance(e, ast.UnaryOp) and isinstance(e.op, ast.USub):
+        t, c = affine(e.operand)
+        return {k: -v for k, v in t.items()}, -c
+    if isinstance(e, ast.BinOp) and isinstance(e.op, (ast.Add, ast.Sub)):
+        t1, c1 = affine(e.left)
+        t2, c2 = affine(e.right)
+        sg = 1 if isinstance(e.op, ast.Add) else -1
+        out = dict(t1)
+        for k, v in t2.items():
+            out[k] = out.get(k, 0) + sg * v
+        return {k: v for k, v in out.items() if v != 0}, c1 + sg * c2
+    if isinstance(e, ast.BinOp) and isinstance(e.op, ast.Mult):
+        for a, b in ((e.left, e.right), (e.right, e.left)):
+            if isinstance(a, ast.Constant) and isinstance(a.value, int) and not isinstance(a.value, bool):
+                t, c = affine(b)
+                return {k: v * a.value for k, v in t.items() if v * a.value != 0}, c * a.value
+    return {norm_src(simplify_ast(e)): 1}, 0
+
+
+def render_affine(terms, const):
+    parts = []
+    for k in sorted(terms):
+        v = terms[k]
+        body = k if (k.replace("_", "").replace(".", "").isalnum() or k.endswith(")") or k.endswith("]")) else "(%s)" % k
+        if v == 1:
+            parts.append("+ " + body)
+        elif v == -1:
+            parts.append("- " + body)
+        else:
+            parts.append(("+ %d * %s" % (v, body)) if v > 0 else ("- %d * %s" % (-v, body)))
+    if const or not parts:
+        parts.append(("+ %d" % const) if const >= 0 else ("- %d" % -const))
+    txt = " ".join(parts)
+    return txt[2:] if txt.startswith("+ ") else "-" + txt[2:]
+
+
+def simplify_ast(e):
+    """Integer +/- arithmetic folded everywhere inside e (children first): (x + 1) - 1 -> x."""
+    class S(ast.NodeTransformer):
+        def visit_BinOp(self, n):
+            if isinstance(n.op, (ast.Add, ast.Sub)):
+                n2 = ast.BinOp(left=self.visit(n.left), op=n.op, right=self.visit(n.right))
+                try:
+                    t, c = affine(n2)
+                    return ast.parse(render_affine(t, c), mode="eval").body
+                except Exception:
+                    return n2
+            return self.generic_visit(n)
+    try:
+        return S().visit(ast.parse(ast.unparse(e), mode="eval").body)
+    except RecursionError:
+        return e
+
+
+def canon_int_cond(src, pol):
+    """Canonical form of an integer comparison: ('<affine> <= 0' | '<affine> == 0', polarity); other conditions: (text, pol).
+    a < b  <=>  a - b + 1 <= 0 ;  a <= b  <=>  a - b <= 0 ;  not (a <= b)  <=>  b - a + 1 <= 0."""
+    try:
+        e = ast.parse(src, mode="eval").body
+    except SyntaxError:
+        return src, pol
+    while isinstance(e, ast.UnaryOp) and isinstance(e.op, ast.Not):
+        e, pol = e.operand, not pol
+    if isinstance(e, ast.BoolOp):
+        parts = [canon_int_cond(norm_src(v), True) for v in e.values]
+        txt = (" or " if isinstance(e.op, ast.Or) else " and ").join(sorted(("%s" % t) if q else ("not (%s)" % t) for t, q in parts))
+        return txt, pol
+    if isinstance(e, ast.Compare) and len(e.ops) == 1 and isinstance(e.ops[0], (ast.Lt, ast.LtE, ast.Gt, ast.GtE, ast.Eq, ast.NotEq)):
+        a, b, op = e.left, e.comparators[0], type(e.ops[0])
+        if op in (ast.Eq, ast.NotEq):
+            if op is ast.NotEq:
+                pol = not pol
+            t, c = affine(ast.BinOp(left=a, op=ast.Sub(), right=b))
+            if not t:
+                return ("%d == 0" % c), pol
+            lead = t[sorted(t)[0]]
+            if lead < 0:
+                t, c = {k: -v for k, v in t.items()}, -c
+            return render_affine(t, c) + " == 0", pol
+        # bring to  X <= 0  with polarity True
+        if op is ast.Gt:
+            a, b, op = b, a, ast.Lt
+        elif op is ast.GtE:
+            a, b, op = b, a, ast.LtE
+        if not pol:
+            # not (a < b) <=> b <= a ; not (a <= b) <=> b < a
+            a, b, op = b, a, (ast.LtE if op is ast.Lt else ast.Lt)
+        t, c = affine(ast.BinOp(left=a, op=ast.Sub(), right=b))
+        if op is ast.Lt:
+            c += 1
+        return render_affine(t, c) + " <= 0", True
+    return norm_src(e), pol
 
 
 class Walker:
-    def __init__(self, model, cls, fine=False):
+    def __init__(self, model, cls, fine=False, entry=False):
         self.model = model
         self.cls = cls
         self.fine = fine
+        self.entry = entry
         FINE[0] = fine
+        ENTRY[0] = entry
         self.depth = 0
         self.functions = set()
 
@@ -147,7 +253,42 @@ class Walker:
         return self.block(list(strip_doc(fn.body)), [p])
 
     def src(self, e, p):
-        return norm_src(subst(e, p.env))
+        if not self.entry:
+            return norm_src(subst(e, p.env))
+        # entry mode: every expression is rendered in terms of the state the method was entered with - reads of scalar
+        # attributes written earlier on the path are replaced by the value written, integer arithmetic is folded
+        # (attribute reads of the expression itself first; alias texts are already in entry terms and are inserted verbatim)
+        x = ast.parse(ast.unparse(e), mode="eval").body
+        if p.sym:
+            sym = p.sym
+
+            class R(ast.NodeTransformer):
+                def visit_Attribute(self, n):
+                    k = None
+                    if isinstance(n.ctx, ast.Load) and isinstance(n.value, ast.Name) and n.value.id == "self":
+                        k = "self." + n.attr
+                    if k in sym:
+                        try:
+                            return ast.parse("(%s)" % sym[k], mode="eval").body
+                        except SyntaxError:
+                            return n
+                    return self.generic_visit(n)
+            x = R().visit(x)
+        x = subst(x, p.env)
+        return norm_src(simplify_ast(x))
+
+    def set_attr(self, p, t, value_src, op=None):
+        """entry mode: record the new value of self.<attr> (source, already in entry terms)."""
+        if not self.entry or not (isinstance(t, ast.Attribute) and isinstance(t.value, ast.Name) and t.value.id == "self"):
+            return
+        k = "self." + t.attr
+        if value_src is None:
+            p.sym[k] = "%s__changed" % t.attr
+        elif op is None:
+            p.sym[k] = value_src
+        else:
+            old = p.sym.get(k, k)
+            p.sym[k] = norm_src(simplify_ast(ast.parse("(%s) %s (%s)" % (old, op, value_src), mode="eval").body))
 
     def block(self, stmts, paths):
         for s in stmts:
@@ -195,7 +336,8 @@ class Walker:
                         _ev(p, ("mean", tsrc, subst(s.value, p.env), s))
                         invalidate(p, tsrc)
                     elif isinstance(t, (ast.Attribute, ast.Subscript)):
-                        _wr(p, (self.src(t, p), norm_src(s), vsrc))
+                        _wr(p, (self.src(t, p) if not (self.entry and isinstance(t, ast.Attribute)) else norm_src(t), norm_src(s), vsrc))
+                        self.set_attr(p, t, vsrc)
                     elif isinstance(t, (ast.Tuple, ast.List)):
                         for e in t.elts:
                             if isinstance(e, ast.Name):
@@ -212,8 +354,10 @@ class Walker:
                     invalidate(p, t.id)
                     p.env.pop(t.id, None)
                 else:
-                    tsrc = self.src(t, p)
-                    _wr(p, (tsrc, "%s %s= %s" % (tsrc, _OPSYM.get(type(s.op), "?"), self.src(s.value, p)), None))
+                    tsrc = self.src(t, p) if not (self.entry and isinstance(t, ast.Attribute)) else norm_src(t)
+                    vs = self.src(s.value, p)
+                    _wr(p, (tsrc, "%s %s= %s" % (tsrc, _OPSYM.get(type(s.op), "?"), vs), None))
+                    self.set_attr(p, t, vs, _OPSYM.get(type(s.op)))
             return paths
         if isinstance(s, ast.Return):
             if s.value is not None:
@@ -276,6 +420,8 @@ class Walker:
                 for q in body_paths:
                     for w in q.writes:
                         _wr(p, w)
+                        if self.entry and w[0].startswith("self.") and w[0][5:].isidentifier():
+                            p.sym[w[0]] = "%s__after_loop" % w[0][5:]
                     for e in q.events:
                         if e[0] == "call":
                             _ev(p, ("loop-call", e[1], e[2], e[3]))
@@ -286,6 +432,10 @@ class Walker:
                         invalidate(p, x.id)
                         p.env.pop(x.id, None)
                 out.append(p)
+            if s.orelse:
+                has_break = any(isinstance(x, ast.Break) for b in s.body for x in ast.walk(b))
+                skipped = [q.clone() for q in out] if has_break else []
+                out = self.block(list(s.orelse), out) + skipped
             return out
         if isinstance(s, ast.While):
             out = []
@@ -301,6 +451,8 @@ class Walker:
                 for q in body_paths:
                     for w in q.writes:
                         _wr(p, w)
+                        if self.entry and w[0].startswith("self.") and w[0][5:].isidentifier():
+                            p.sym[w[0]] = "%s__after_loop" % w[0][5:]
                     for e in q.events:
                         if e[0] == "call":
                             _ev(p, ("loop-call", e[1], e[2], e[3]))
@@ -408,16 +560,17 @@ def merge(paths):
     return out
 
 
-def method_paths(model, cls, meth):
+def method_paths(model, cls, meth, entry=False):
     fn = model.lookup(cls, meth)[1]
     if fn is None:
         raise AnalysisError("%s.%s not found" % (cls, meth))
-    w = Walker(model, cls, fine=True)
+    w = Walker(model, cls, fine=True, entry=entry)
     params = [a.arg for a in fn.args.args]
     try:
         return fn, params, w.run(fn), w.functions
     finally:
         FINE[0] = False
+        ENTRY[0] = False
 
 
 def credit_paths(model, cls):
